@@ -14,7 +14,7 @@ inductive Outcome (α : Type) where
   | ok (a : α)
   | err
   | outOfFuel
-deriving Repr, Inhabited
+deriving Repr, Inhabited, DecidableEq
 
 def commandChars : Str := cs!"MmLlHhVvZzCcSsQqTtAa"
 
@@ -25,17 +25,21 @@ def skipWspComma (s : Str) : Str :=
   | ',' :: r => skipWs r
   | r => r
 
-def isNumChar (c : Char) : Bool := isDigit c || c == '.' || c == '-'
-
-/-- `read_number`: greedy run of digits, '.' and '-', then Rust's `f32::from_str` -/
+/-- `read_number`: one SVG number (`Num.scanNumber`), then Rust's `f32::from_str` on it -/
 def readNumber (s : Str) : Option (Rat × Str) :=
   if s.isEmpty then none
   else
-    let tok := s.takeWhile isNumChar
-    let rest := skipWspComma (s.dropWhile isNumChar)
+    let (tok, r) := scanNumber s
     match parseF32 tok with
-    | .num q => some (q, rest)
+    | .num q => some (q, skipWspComma r)
     | _ => none
+
+/-- `read_flag`: a single `0` or `1` -/
+def readFlag (s : Str) : Option Str :=
+  match s with
+  | '0' :: r => some (skipWspComma r)
+  | '1' :: r => some (skipWspComma r)
+  | _ => none
 
 def readCoord (s : Str) : Option ((Rat × Rat) × Str) :=
   match readNumber s with
@@ -106,8 +110,8 @@ def step (st : PState) : Option PState :=
     else if cmd == 'c' then (skipCoords 2 r).bind rel1
     else if cmd == 'S' || cmd == 'Q' then (skipCoords 1 r).bind abs1
     else if cmd == 's' || cmd == 'q' then (skipCoords 1 r).bind rel1
-    else if cmd == 'A' then ((skipCoords 1 r).bind (skipNums 3)).bind abs1
-    else if cmd == 'a' then ((skipCoords 1 r).bind (skipNums 3)).bind rel1
+    else if cmd == 'A' then ((((skipCoords 1 r).bind (skipNums 1)).bind readFlag).bind readFlag).bind abs1
+    else if cmd == 'a' then ((((skipCoords 1 r).bind (skipNums 1)).bind readFlag).bind readFlag).bind rel1
     else none
 
 def run : Nat → PState → Outcome PState
